@@ -238,7 +238,9 @@ class Sample:
             elif len(ref) > len(alt) and len(alt) - off == 0:
                 return off + pos, f"del{self.gene[off + pos : pos + len(ref)]}"
             elif len(ref) < len(alt) and len(ref) - off == 0:
-                return off + pos, f"ins{alt[off:]}"
+                # The database keys an insertion by the base it follows (the last
+                # base shared by REF and ALT), not by the next reference base.
+                return off + pos - 1, f"ins{alt[off:]}"
             else:
                 log.trace(f"[sam] ignoring {pos}: {ref}->{alt}")
                 return pos, None
@@ -270,6 +272,13 @@ class Sample:
                 for gt in g:
                     pos, op = hgvs[gt]
                     if op == "_":
+                        continue
+                    if (pos, op) in self._indel_sites and op.startswith("ins"):
+                        # Database insertions are read from the indel table (parsed
+                        # insertions are dropped by Coverage when that table exists):
+                        # [reads without the insertion, reads with it]
+                        y = self._indel_sites[pos, op][1] + 10
+                        self._indel_sites[pos, op] = [max(0, 20 - y), y]
                         continue
                     muts[pos, op] += [(40, 40)] * 10
                     norm[pos] = norm[pos][:-10]
